@@ -571,12 +571,22 @@ def build_verdict_case(case, skip=()):
     return ''.join(out), files, spans
 
 
+def _same_mtime(ws, files):
+    """the data files of a case carry one and the same modification time (as files unpacked from an archive do): a
+    comparison of two files that looks at size and time instead of the contents is then wrong"""
+    for name in files:
+        p = os.path.join(ws.home, name)
+        if os.path.isfile(p):
+            os.utime(p, ns=(1_600_000_000 * 10 ** 9, 1_600_000_000 * 10 ** 9))
+
+
 def _run_verdict_case(case, skip):
     case_text, files, spans = build_verdict_case(case, skip)
     with driver.Workspace() as ws:
         for name, content in files.items():
             ws.write(name, content.encode('utf-8'))
         ws.write('t.case', case_text)
+        _same_mtime(ws, files)
         r = driver.run_inproc(ws, ['t.case'], mem_buff_size=case['buff'])
     detail = {'buff': case['buff'], 'case_text': case_text, 'files': files, 'exit': r.exit_code, 'out': r.out[:300],
               'err': r.err[:1500], 'exception': r.exception}
@@ -689,6 +699,7 @@ def _run_files_case(case):
         for name, content in files.items():
             ws.write(name, content.encode('utf-8'))
         ws.write('t.case', case_text)
+        _same_mtime(ws, files)
         r = driver.run_inproc(ws, ['--keep', 't.case'], mem_buff_size=case['buff'])
         sb = r.out.strip()
         if r.exit_code == 0 and sb and os.path.isdir(sb):
@@ -803,6 +814,7 @@ def check_cli_metamorphic(case) -> Verdict:
             for name, content in files.items():
                 ws.write(name, content.encode('utf-8'))
             ws.write('t.case', case_text)
+            _same_mtime(ws, files)
             r = driver.run_inproc(ws, ['t.case'], mem_buff_size=buff)
         return r, spans, {'buff': buff, 'case_text': case_text, 'files': files, 'exit': r.exit_code,
                           'out': r.out[:300], 'err': r.err[:1500], 'exception': r.exception}
